@@ -40,6 +40,15 @@ def registry(e, st):
 def hook_put_handle(e, st, a, callee):
     """put_handle with the random 20-char key replaced by an arbitrary key assumed not to be live"""
     key = str_concat(mk_str('handle:'), e.fresh_str('rnd', 2))
+    # the assumption itself: the fresh key differs from every live handle
+    state = e.deref(st, a[0])
+    found, sub, _ = map_lookup(e, st, state, mk_str('handles'))
+    if found is not False and isinstance(sub, E):
+        for k, payload in sub.p.items():
+            if payload and isinstance(payload[0], M):
+                for p, kk, vv in payload[0].ents:
+                    if p is False or not isinstance(kk, S): continue
+                    e.assume(z3.Implies(z3.And(found if is_sym(found) else z3.BoolVal(bool(found)), z3.BoolVal(True) if p is True else p, zeq(sub.d, k) if is_sym(sub.d) else z3.BoolVal(sub.d == k)), z3.Not(str_eq(kk, key))))
     e.run_call('utils::state::return_handle', st, [a[0], key, a[1]], 'sdk')
     return key
 
